@@ -98,6 +98,12 @@ BIT_LIMIT = 38      # leaves room for the integer factors and the sums that diff
 
 
 # ---------------------------------------------------------------------------------------------- impl side (worker)
+def opn(case, i):
+    """operator name of node i; `same_op`: every node's operator is called `op` although the definitions differ (two operators
+    of one name with different definitions work since fix D90)"""
+    return "op" if case.get("same_op") else f"op{i}"
+
+
 def build_circuit(case):
     from pyrates import CircuitTemplate, OperatorTemplate, NodeTemplate
     nodes = {}
@@ -113,7 +119,7 @@ def build_circuit(case):
             variables[name] = float(Fr(val))
         if nd["input"]:
             variables["s_in"] = "input(0.0)"
-        op = OperatorTemplate(name=f"op{i}", equations=eqs, variables=variables)
+        op = OperatorTemplate(name=opn(case, i), equations=eqs, variables=variables)
         nodes[nd["name"]] = NodeTemplate(name=f"nt{i}", operators=[op])
     edges = []
     for sn, sv, tn, w, d in case["edges"]:
@@ -121,7 +127,7 @@ def build_circuit(case):
         attr = {"weight": float(Fr(w))}
         if d is not None:
             attr["delay"] = float(Fr(d))
-        edges.append((f"{sn}/op{si}/{sv}", f"{tn}/op{ti}/s_in", None, attr))
+        edges.append((f"{sn}/{opn(case, si)}/{sv}", f"{tn}/{opn(case, ti)}/s_in", None, attr))
     return CircuitTemplate(name="c12", nodes=nodes, edges=edges)
 
 
@@ -495,18 +501,21 @@ def gen_case(rng, allow_viol=False, absv=False, want_delay=None, fns=False, npar
         sv = nodes[s]["states"][src[1]][0] if src[0] == "state" else nodes[s]["inters"][src[1]][0]
         edges_out.append([names[s], sv, names[t], w, d])
     case = dict(nodes=nodes, edges=edges_out, sparse=rng.random() < 0.34)
+    if nn > 1 and rng.random() < 0.25:
+        case["same_op"] = True
     case["solver"] = "scipy" if has_delay(case) else rng.choice(["euler", "scipy"])
     case["points"] = [gen_point(rng, case) for _ in range(3)]
     return case
 
 
-def gen_auto_case(rng, many=None):
+def gen_auto_case(rng, many=None, need_edges=False):
     """polynomial ODE model for the auto-07p export; every other model has >= 10 parameters (reserved PAR slots 11-14 are crossed)"""
     while True:
         many = (rng.random() < 0.6) if many is None else many
         case = gen_case(rng, want_delay=False, nparams=(rng.randint(5, 9) if many else None), distinct_weights=True)
         npar = sum(len(nd["params"]) for nd in case["nodes"]) + len(case["edges"])
-        if not many or npar >= 10:
+        cross = any(e[0] != e[2] for e in case["edges"])
+        if (not many or npar >= 10) and (not need_edges or (len(case["nodes"]) >= 2 and cross)):
             break
     case["auto"] = True; case["sparse"] = False; case["solver"] = "scipy"
     case["points"] = case["points"][:2]
@@ -519,7 +528,7 @@ def has_delay(case):
 
 
 def all_states(case):
-    return [f"{nd['name']}/op{i}/{s[0]}" for i, nd in enumerate(case["nodes"]) for s in nd["states"]]
+    return [f"{nd['name']}/{opn(case, i)}/{s[0]}" for i, nd in enumerate(case["nodes"]) for s in nd["states"]]
 
 
 def gen_point(rng, case):
@@ -527,7 +536,7 @@ def gen_point(rng, case):
     params = {}
     for i, nd in enumerate(case["nodes"]):
         for p, _ in nd["params"]:
-            params[f"{nd['name']}/op{i}/{p}"] = dy(rng, 0, 2, 4, nonzero=True) if p == "tau" else dy(rng, -2, 2, 4)
+            params[f"{nd['name']}/{opn(case, i)}/{p}"] = dy(rng, 0, 2, 4, nonzero=True) if p == "tau" else dy(rng, -2, 2, 4)
     return dict(t=dy(rng, 0, 4, 4), y={s: dy(rng, -2, 2, 4) for s in sts}, params=params,
                 h0={s: dy(rng, -2, 2, 4) for s in sts}, h1={s: dy(rng, -1, 1, 4) for s in sts})
 
@@ -578,7 +587,7 @@ class Ids:
         self.ids = {}
         for i, nd in enumerate(case["nodes"]):
             for nm in [s[0] for s in nd["states"]] + [x[0] for x in nd["inters"]] + [p[0] for p in nd["params"]] + ["s_in"]:
-                self.ids[f"{nd['name']}/op{i}/{nm}"] = len(self.ids)
+                self.ids[f"{nd['name']}/{opn(case, i)}/{nm}"] = len(self.ids)
         self.lits = {}
 
     def var(self, path):
@@ -615,7 +624,7 @@ def delay_values(case, pt, ids):
     """delay id -> value of the delay at this point (parameter value or literal)"""
     vals = {}
     for i, nd in enumerate(case["nodes"]):
-        pre = f"{nd['name']}/op{i}/"
+        pre = f"{nd['name']}/{opn(case, i)}/"
         for _, e in [(s[0], s[2]) for s in nd["states"]] + [tuple(x) for x in nd["inters"]]:
             for x in walk(e):
                 if x[0] == "past":
@@ -643,7 +652,7 @@ def coq_result(r, ids):
 def coq_case(case, out):
     ids = Ids(case)
     names = [nd["name"] for nd in case["nodes"]]
-    pre = {nd["name"]: f"{nd['name']}/op{i}/" for i, nd in enumerate(case["nodes"])}
+    pre = {nd["name"]: f"{nd['name']}/{opn(case, i)}/" for i, nd in enumerate(case["nodes"])}
     smap = out["smap_run"]
     order = sorted(smap, key=lambda k: smap[k])
     assert sorted(smap.values()) == list(range(len(smap))) and set(order) == set(all_states(case)), smap
@@ -711,7 +720,7 @@ def coq_sys(case, order, ids, pre, weight_id=None):
 
 def coq_case_auto(case, out):
     ids = Ids(case)
-    pre = {nd["name"]: f"{nd['name']}/op{i}/" for i, nd in enumerate(case["nodes"])}
+    pre = {nd["name"]: f"{nd['name']}/{opn(case, i)}/" for i, nd in enumerate(case["nodes"])}
     smap = out["smap_run"]
     order = sorted(smap, key=lambda k: smap[k])
     assert sorted(smap.values()) == list(range(len(smap))) and set(order) == set(all_states(case)), smap
@@ -883,7 +892,7 @@ def check(ctx):
             cases.append(gen_case(ctx.rng, allow_viol=((FIXED_D08B or GUARD_DELAYED in listed) and r < 0.1),
                                   absv=(0.1 <= r < 0.25),
                                   want_delay=(True if k % 2 == 0 else None), fns=(k % 4 == 1)))
-        cases += [gen_auto_case(ctx.rng, many=(True if k % 3 < 2 else None)) for k in range(n_auto)]
+        cases += [gen_auto_case(ctx.rng, many=(True if k % 3 < 2 else None), need_edges=(k % 3 == 0)) for k in range(n_auto)]
     outs = run_impl(ctx, "c12", "impl", cases, per_case_timeout=90)
     crashed = [i for i, r in enumerate(outs) if "err" in r]
     skipped = [i for i, r in enumerate(outs) if "skip" in r]
@@ -907,7 +916,8 @@ def check(ctx):
     smap_diff = [i for i in good if not cases[i].get("auto") and outs[i]["smap_run"] != outs[i]["dense"]["smap"]]
     n_au = [i for i in good if cases[i].get("auto")]
     ctx.note(f"auto-07p stream: {len(n_au)} models compiled with backend='fortran', auto=True through f2py, FUNC(IJAC=2) at 2 points each: F, DFDU and all "
-             f"{NPARX} DFDP columns compared exactly; models with >= 10 PAR slots used: {sum(1 for i in n_au if len(outs[i]['slots']) >= 10)}")
+             f"{NPARX} DFDP columns compared exactly; models with >= 10 PAR slots used: {sum(1 for i in n_au if len(outs[i]['slots']) >= 10)}, with edges between two nodes: "
+             f"{sum(1 for i in n_au if any(e[0] != e[2] for e in cases[i]['edges']))}; same operator name on all nodes (D90): {sum(1 for c in cases if c.get('same_op'))} models")
     ctx.note(f"E1: {len(cases)} models x 3 points ({sum(1 for c in cases if has_delay(c))} with delays, "
              f"{sum(1 for i in good if 'sparse' in outs[i])} also compiled with sparse=True); J-vs-Impl mismatches {len(res['badI'])}, "
              f"J-vs-Spec mismatches {len(res['badS'])}, vector-field-vs-model mismatches {len(res['badF'])}, harness/worker errors {len(crashed)}, "
